@@ -13,8 +13,14 @@ def main():
     if eng.errors:
         return
     pat = sys.argv[2] if len(sys.argv) > 2 else ""
+    rel = None
+    if pat.startswith("@locks"):
+        rel = eng.lock_relevant_funcs()
+        pat = pat[6:]
     for d in eng.decls:
         if d.kind not in ("func", "lemma", "coverage") or pat not in d.name:
+            continue
+        if rel is not None and (d.kind != "func" or d.attrs.get("full") not in rel):
             continue
         if d.kind == "func" and (("effectfree" in d.flags and not d.tags) or "assumed" in d.flags or "opaque" in d.flags):
             continue
@@ -37,10 +43,11 @@ def main():
             eng.cur = None
     for o in eng.obls.values():
         if pat and pat not in o.name: continue
+        if rel is not None and o.kind not in ("lock", "ownership", "lock-inv", "guarantee", "pre", "blocking", "coverage"): continue
         if o.verdict == "discharged" and o.covered is not False and "-v" not in sys.argv: continue
         print("  %-10s %s inst=%d ms=%.0f %s" % (o.verdict, o.name, o.instances, o.ms, "" if o.covered is not False else "VACUOUS-ANTECEDENT"))
         for f in o.failed[:1]:
-            print("      FAIL", str({k: v for k, v in f.items() if k not in ("smt2", "model")})[:300], str({k: v for k, v in (f.get("model") or {}).items() if "#" not in k and "!" not in k})[:400])
+            print("      FAIL", str({k: v for k, v in f.items() if k not in ("smt2", "model")})[:900], str({k: v for k, v in (f.get("model") or {}).items() if "#" not in k and "!" not in k})[:400])
         for f in o.unknown[:1]:
             print("      UNKNOWN", {k: v for k, v in f.items() if k != "smt2"})
     n = sum(1 for o in eng.obls.values() if o.verdict == "discharged")
